@@ -55,6 +55,8 @@ type party struct {
 	variantOf *party
 	v         *tagVariant
 	wrongBody bool
+	// pseudo party (oddshape.go): a fixed foreign stanza
+	fixed *refage.Stanza
 }
 
 // tag is the public-key tag of an SSH party, recomputed by the reference.
@@ -71,6 +73,9 @@ func (p *party) tag() string {
 func (p *party) wrap(fk []byte, label string) refage.Stanza {
 	if p.variantOf != nil {
 		return p.variantStanza(fk, label)
+	}
+	if p.fixed != nil {
+		return refage.Stanza{Type: p.fixed.Type, Args: append([]string(nil), p.fixed.Args...), Body: append([]byte(nil), p.fixed.Body...)}
 	}
 	var s refage.Stanza
 	var err error
@@ -121,6 +126,7 @@ type fileKind struct {
 	// the tree's plain identity of S on the list (measured at start-up), and
 	// whether the list holds a malformed stanza of the identity's own type, for
 	// which a hard error is as good as "no match"
+	cls        string // overrides matchClass and the table name (oddshape.go)
 	variant    string
 	place      string
 	plainClass string
@@ -148,6 +154,9 @@ func (f *fileKind) plainCls() string {
 }
 
 func (f *fileKind) tabName() string {
+	if f.cls != "" {
+		return f.cls
+	}
 	if f.variant != "" {
 		return "near-tag-" + f.variant + "-" + f.place
 	}
@@ -156,6 +165,8 @@ func (f *fileKind) tabName() string {
 
 func (f *fileKind) matchClass() string {
 	switch {
+	case f.cls != "":
+		return f.cls
 	case f.variant != "" && f.place != "alone":
 		// with a genuine stanza present the variant class is not what matters
 		return "near-tag-" + f.place
@@ -689,6 +700,9 @@ func runHistory(r *mon.Run, col *collector, b *batch, h []step) (recs []stepRec)
 			return got.class == w.class || (f.lenient && w.class == clsNoMatch && got.class == clsError)
 		}
 		okT, okV := agrees(wantT), agrees(wantV)
+		if f.cls != "" && stateT != "unlocked" {
+			r.Count("foreign_odd_shape_steps_on_locked_identity", 1)
+		}
 		if f.variant != "" && stateT != "unlocked" {
 			markNearTag(r, f.variant, c.kindName())
 		}
@@ -770,6 +784,8 @@ func main() {
 		"fixed key files: OpenSSH/bcrypt (ssh-keygen -a 2) Ed25519 and RSA, legacy PEM (AES-128-CBC) RSA; RSA moduli of 2048, 2500 and 2052 bits; one right passphrase; wrong = another string, passphrase plus a space, empty, nil",
 		"every step is age.Decrypt with the identity as the only identity, on a well-formed file built by refage; a stanza of the identity's type without arguments is outside the alphabet (C14)",
 		"histories are sequential (C20 covers sharing); the identity value is never copied",
+		"foreign stanzas of odd shapes (no arguments with empty / non-empty body, one short argument, twenty arguments) alone, before, after and between genuine stanzas: not addressed to the key, no prompt, no hard error; the unknown stanza of the multi-identity headers takes these shapes too",
+		"key files whose Ed25519 private blob is seed(X)||pub(Y), X != Y (splitkey.go), built with ssh.MarshalPrivateKeyWithPassphrase: checked against the history-free core only (outcome class equals the first call on a fresh value, nothing is ever decrypted, no prompt without a stanza for the declared key, at most one otherwise)",
 		"every step of the history stage and every call of the shared-slice Unwrap stage runs under a watchdog: a call that stays silent for 20 s after it started (or after the passphrase callback returned) is reported as never-returned and its history abandoned; after 3 such reports the stage stops (the run cannot be 'held' then)",
 		"identities whose stored key is of an unsupported type (ECDSA P-256 / P-384) are built at start-up with ssh.MarshalPrivateKeyWithPassphrase from deterministic keys and a deterministic tape; DSA and sk- keys cannot be marshalled by x/crypto v0.24",
 		"near-miss stanzas (tagvar.go): first argument close to but not the 6-character tag (classes a-i), or exactly the tag under a stanza TYPE that is a near miss of the key type (class t). None is addressed to the key: no prompt and no match, on a locked and on an unlocked identity alike. Only where a stanza of the identity's own type is malformed (argument count, key share) is a hard error accepted in place of no-match, and the unlocked outcome taken from the tree's own plain identity on that list; arguments with white space or NUL cannot occur in a header and are run at the Unwrap level only",
@@ -1023,6 +1039,11 @@ func main() {
 		hs := addTagVariantFiles(r, c, c.U.tag())
 		batches = append(batches, &batch{c: c, name: "near-tag-histories", count: len(hs), exact: true, history: func(i int) []step { return hs[i] }})
 	}
+	// foreign stanzas of odd shapes (no arguments, one short argument, twenty)
+	for _, c := range tagConfs {
+		hs := addOddShapeFiles(c)
+		batches = append(batches, &batch{c: c, name: "foreign-odd-shape-histories", count: len(hs), exact: true, history: func(i int) []step { return hs[i] }})
+	}
 	if r.Counter("sanity_failures") != 0 {
 		r.Finish()
 	}
@@ -1071,6 +1092,9 @@ func main() {
 		if len(unsConfs) == 0 {
 			r.Inconclusive("no identity with a stored key of an unsupported type could be constructed")
 		}
+		if n := r.Counter("foreign_odd_shape_steps_on_locked_identity"); n < 50 {
+			r.Inconclusive("only %d steps put a foreign stanza of an odd shape before a locked identity", n)
+		}
 		if n := r.Counter("unsupported_stored_key_histories_len>=2_starting_with_match_and_right_passphrase"); n < 30 {
 			r.Inconclusive("only %d histories of length >= 2 starting with a matching file and the right passphrase ran on an identity whose stored key is of an unsupported type", n)
 		}
@@ -1111,6 +1135,8 @@ func main() {
 	if os.Getenv("C19_STAGE") != "cli" {
 		fs := newFindings()
 		tagUnwrapStage(r, fs, tagConfs, map[string]string{"ssh-ed25519": encEd2.tag(), "ssh-rsa": r1.tag()})
+		edA, edB := keys.DecryptedEd("enc_ed1"), keys.DecryptedEd("enc_ed2")
+		splitKeyStage(r, fs, encEd1, encEd2, e1, edA.Seed, edB.Seed)
 		fs.report(r)
 		if os.Getenv("C19_STAGE") == "" {
 			nearTagVacuity(r, []string{"ed25519", "rsa-openssh", "rsa-pem"})
